@@ -28,6 +28,7 @@ fn check<'a>(ctx: &Ctx) -> DecCheck<'a> {
         profile: Profile { max_tokens: 6, small_caps_weight: 160, queries: false, exact_queries: false, modes: &hist::ALL_MODES, sinks: &hist::ALL_SINKS, bom_prefix_weight: 200 },
         fills: vec![0xA5],
         mixed_sinks: false,
+        mixed_all: false,
     }
 }
 
@@ -101,7 +102,7 @@ fn prefix_family(ctx: &Ctx) -> Stats {
                             for &repl in &c.repls {
                                 for caps in [vec![sink.min_cap()], vec![sink.min_cap() + 1], vec![]] {
                                     for last_on_empty in [false, true] {
-                                        let h = DecHistory { enc, mode, sink, repl, stream: stream.clone(), cuts: cuts.clone(), last_on_empty, caps: caps.clone(), fill: 0xA5, align: 0, sinks_per_call: vec![] };
+                                        let h = DecHistory { enc, mode, sink, repl, stream: stream.clone(), cuts: cuts.clone(), last_on_empty, caps: caps.clone(), fill: 0xA5, align: 0, sinks_per_call: vec![], repls_per_call: vec![] };
                                         st.evals += 1;
                                         if let Some((msg, sig)) = dech::verdict_c10(&h, &mut sc, st, true) {
                                             let mut case = h.to_json();
